@@ -48,6 +48,11 @@ LEAFTYPES = [
     ("union", [S("?n 3"), S("3 ?n")]),
     ("union", [S("?n 3"), S("_ 4")]),
     ("union", [S("?n ?k 9"), S("?k ?n _")]),
+    # '?' axes inside an annotation that is EXTENDED by nesting (Image = Shaped[A, "?h ?w"]; Float[Image, "2"])
+    ("arrnest", "Shaped", "2", "?n"),
+    ("arrnest", "Shaped", "m", "?n ?k"),
+    ("arrnest", "Shaped", "?n", "2"),
+    ("arrnest", "Shaped", "", "*?n"),
     # a structure-less PyTree alternative that does NOT match the (array) leaf, then a '?' alternative
     ("union", [("pytree", ("int",)), S("?n")]),
     ("union", [("pytree", ("str",)), S("*?n")]),
@@ -82,6 +87,8 @@ def required_counters(tier):
 def leaf_value(rng, L, sizes):
     """a value for leaf type L; sizes: dict axis-name -> size for this leaf position"""
     k = L[0]
+    if k == "arrnest":
+        return leaf_value(rng, ("arr", L[1], (L[2] + " " + L[3]).strip()), sizes)
     if k == "arr":
         toks = M.parse(L[2])
         shape = []
@@ -262,6 +269,9 @@ def run_case(rec, rng, rngkey=None):
     arr = real.np_array((2,))
     Sn = jaxtyping.Shaped[np.ndarray, rng.choice(("?n", "*?n", "?n m", "m ?n"))]
     val = arr if Sn.dim_str.count(" ") == 0 else real.np_array((2, 3))
+    if rng.random() < 0.3:  # the '?' axis sits in the inner annotation of a nested one
+        Sn = jaxtyping.Float[jaxtyping.Shaped[np.ndarray, "?n"], "3"]
+        val = real.np_array((3, 2))
     tree = rng.choice(([val], (val, val), {"a": val}, [[val], val]))
     for name, ann, x in (
         ("toplevel", Sn, val),
